@@ -51,6 +51,14 @@ for d in sorted(glob.glob(V + "/seeded/*/")):
     finally:
         sh("git -C /repo checkout -- . && git -C /repo clean -fdq")
     print(rows[-1], flush=True)
+# merge with the rows of seeds that were not run this time
+if pref and os.path.exists(V + "/seeded/RESULTS.md"):
+    have = {r[0] for r in rows}
+    for l in open(V + "/seeded/RESULTS.md"):
+        cells = [c.strip() for c in l.strip().strip("|").split(" | ")]
+        if len(cells) == 4 and cells[0] not in ("seed", "---") and not cells[0].startswith("-") and cells[0] not in have:
+            rows.append(tuple(cells))
+    rows.sort()
 with open(V + "/seeded/RESULTS.md", "w") as f:
     f.write("# Seeded changes versus the quick checks (written by tools/seedsweep.py)\n\n| seed | property | result | first line of the replay |\n|---|---|---|---|\n")
     for r in rows:
